@@ -189,7 +189,9 @@ def main():
     ap.add_argument("--lean", required=True)
     ap.add_argument("--work", default="/tmp/tie_selftest")
     ap.add_argument("--only", default=None, help="regex on mutation ids")
-    ap.add_argument("--target", default="PyEcc.Props.Tie")
+    ap.add_argument("--target", default="PyEcc.Props.TieSecp PyEcc.Props.TiePairing PyEcc.Props.TieMiller PyEcc.Props.TieSwu "
+                                           "PyEcc.Props.TieCofactor PyEcc.Props.TieCodec",
+                    help="lake build targets (space separated)")
     a = ap.parse_args()
     gen_dir = os.path.join(a.lean, "PyEcc", "Gen")
     env = dict(os.environ)
@@ -219,7 +221,7 @@ def main():
                 saved[dst] = open(dst).read() if os.path.exists(dst) else None
                 shutil.copy(os.path.join(gen_out, c + ".lean"), dst)
             t0 = time.time()
-            r = run(["lake", "build", a.target], cwd=a.lean, env=env)
+            r = run(["lake", "build"] + a.target.split(), cwd=a.lean, env=env)
             dt = time.time() - t0
             for dst, txt in saved.items():
                 if txt is None:
@@ -235,7 +237,7 @@ def main():
         results.append((mid, fn, old, new, verdict, detail))
         print(f"{mid:24s} {fn:24s} {old!r} -> {new!r}: {verdict}\n    {detail}", flush=True)
     # restore check
-    r = run(["lake", "build", a.target], cwd=a.lean, env=env)
+    r = run(["lake", "build"] + a.target.split(), cwd=a.lean, env=env)
     print("pristine rebuild:", "ok" if r.returncode == 0 else "FAILED\n" + r.stdout[-2000:])
     bad = [x for x in results if x[4].startswith("NOT")]
     print(json.dumps({"mutations": len(results), "caught": len(results) - len(bad), "not_caught": [x[0] for x in bad]}))
